@@ -324,7 +324,29 @@ def rule_unq(S):
             if len(a) >= 3 and is_catalogue(ds, a[0]) and \
                     root_var(ds, a[1]) == dname:
                 get_out.add(root_var(ds, a[2]))
-    S.ob('R-UNQ', ds.qname, 'catalogue remove', bool(rm_vars),
+        if is_call(n, cq='yakushima::storage::find_storage'):
+            # find_storage(name, &out) is the catalogue lookup (its own obligation is decided below)
+            a = call_args(ds, n)
+            if len(a) == 2 and root_var(ds, a[0]) == dname:
+                rv_ = root_var(ds, a[1])
+                ini_ = R.var_decl_init(ds, rv_) if rv_ else None
+                if ini_ is not None and root_var(ds, ini_):
+                    rv_ = root_var(ds, ini_)
+                get_out.add(rv_)
+    # a remove whose status decides a branch directly (`if (remove(..) != OK)`) keeps its status on the edges
+    rm_conds = {}
+    for b_, blk_ in ds.blocks.items():
+        if blk_.term and 'cond' in blk_.term and len(blk_.succ) == 2:
+            c_ = ds.strip(blk_.term['cond'], casts=True)
+            if c_ is not None and c_['k'] == 'BinaryOperator' and c_.get('op') in ('==', '!='):
+                l_, r_ = ds.ch(c_)
+                for x_, y_ in ((l_, r_), (r_, l_)):
+                    xs = ds.strip(x_, casts=True)
+                    if xs is not None and is_call(xs, cq='yakushima::remove') and R.const_of(ds, y_) == OK:
+                        a = call_args(ds, xs)
+                        if len(a) == 3 and is_catalogue(ds, a[1]) and root_var(ds, a[2]) == dname:
+                            rm_conds[b_] = c_['op']
+    S.ob('R-UNQ', ds.qname, 'catalogue remove', bool(rm_vars) or bool(rm_conds),
          'removes the name from the catalogue' if rm_vars else
          'no remove(token, get_storages(), <name>) whose status is kept', loc=ds.loc)
     S.ob('R-UNQ', ds.qname, 'lookup by the same name', bool(get_out),
@@ -340,7 +362,7 @@ def rule_unq(S):
     def step(ctx, n, st):
         fs = R.track_assign(ds, n, st, facts)
         if is_call(n, cq='yakushima::tree_instance::load_root_ptr') and root_var(ds, call_recv(ds, n)) in get_out:
-            onok0 = any((R.facts_get(fs, v) or '') == 'in:' + OK for v in rm_vars)
+            onok0 = any((R.facts_get(fs, v) or '') == 'in:' + OK for v in rm_vars) or R.facts_get(fs, '#rm') == 'ok'
             return R.facts_set(fs, '#rootload', 'after' if onok0 else 'before')
         if is_call(n, cq='yakushima::tree_instance::store_root_ptr') and root_var(ds, call_recv(ds, n)) in get_out:
             a0 = call_args(ds, n)
@@ -363,7 +385,7 @@ def rule_unq(S):
                 for x in ds.walk(ini):
                     if is_call(x, cq='yakushima::tree_instance::load_root_ptr'):
                         src = root_var(ds, call_recv(ds, x))
-            onok = any((R.facts_get(fs, v) or '') == 'in:' + OK for v in rm_vars)
+            onok = any((R.facts_get(fs, v) or '') == 'in:' + OK for v in rm_vars) or R.facts_get(fs, '#rm') == 'ok'
             e = destroyed.setdefault(short_loc(n), {'ok': True, 'loc': short_loc(n), 'path': None, 'why': ''})
             if src not in get_out:
                 e['ok'] = False
@@ -378,7 +400,7 @@ def rule_unq(S):
                 if R.facts_get(fs, '#cleared') != 'Y' and not serialised:
                     c['ok'] = False
                     c['path'] = c['path'] or ctx.witness()
-            onok = any((R.facts_get(fs, v) or '') == 'in:' + OK for v in rm_vars)
+            onok = any((R.facts_get(fs, v) or '') == 'in:' + OK for v in rm_vars) or R.facts_get(fs, '#rm') == 'ok'
             e = ok_rets.setdefault(short_loc(n), {'ok': True, 'loc': short_loc(n), 'path': None})
             if not onok:
                 e['ok'] = False
@@ -387,7 +409,11 @@ def rule_unq(S):
         return fs
 
     def branch(ctx, blk, idx, st):
-        return R.refine(ds, blk, idx, st)
+        fs2 = R.refine(ds, blk, idx, st)
+        if fs2 is not None and blk.id in rm_conds:
+            ok_edge = (idx == 0) == (rm_conds[blk.id] == '==')
+            fs2 = R.facts_set(fs2, '#rm', 'ok' if ok_edge else 'failed')
+        return fs2
 
     Explorer(ds, step, branch).run(frozenset())
     for loc, e in sorted(ok_rets.items()):
@@ -470,6 +496,72 @@ def rule_unq(S):
                  loc=short_loc(n))
 
 
+def rule_sess(S, rule='R-SESS'):
+    """The library's own sessions: what a DDL function looked up inside its session is not used after its leave."""
+    from yk.flow import Explorer
+    facts = S.facts()
+    S.rule(rule, 'storage::delete_storage / create_storage / find_storage / list_storages and destroy(): a tree_instance '
+                 'pointer obtained from the catalogue (the out-argument of get<tree_instance> / find_storage) inside the '
+                 'function\'s own enter .. leave pair is not dereferenced after that leave on the same path: the catalogue '
+                 'stores the tree_instance by value in the entry, remove() retires the entry into this session\'s GC list, '
+                 'and after leave it may be freed and reused (by a create_storage of another name)')
+    n = 0
+    for q in ('yakushima::storage::delete_storage', 'yakushima::storage::create_storage'):
+        f = facts.one(q)
+        if not any(is_call(x, cq='yakushima::leave') for x in f.all_nodes()):
+            continue
+        n += 1
+
+        def resolve(var, depth=0):
+            ini = R.var_decl_init(f, var) if var else None
+            if ini is None or depth > 4:
+                return var
+            rv = root_var(f, ini)
+            return resolve(rv, depth + 1) if rv and rv != var else var
+
+        entry_vars = set()
+        for x in f.all_nodes():
+            if is_call(x, cq='yakushima::get') or is_call(x, cq='yakushima::storage::find_storage'):
+                a = call_args(f, x)
+                if a:
+                    rv = resolve(root_var(f, a[-1]))
+                    if rv:
+                        entry_vars.add(rv)
+        # locals copied from them
+        changed = True
+        while changed:
+            changed = False
+            for m in f.all_nodes():
+                if m['k'] == 'DeclStmt':
+                    for v in m.get('vars', []):
+                        if 'init' in v and v['id'] not in entry_vars and root_var(f, v['init']) in entry_vars and \
+                                ('tree_instance' in (v.get('type') or '')):
+                            entry_vars.add(v['id'])
+                            changed = True
+        sites = {}
+
+        def step(ctx, nd, st):
+            if is_call(nd, cq='yakushima::enter'):
+                return 'open'
+            if is_call(nd, cq='yakushima::leave'):
+                return 'left'
+            if nd['k'] == 'CXXMemberCallExpr' and nd.get('mcls') == 'yakushima::tree_instance' and st == 'left':
+                rv = resolve(root_var(f, call_recv(f, nd)))
+                if rv in entry_vars:
+                    sites.setdefault(short_loc(nd), ctx.witness())
+            if nd['k'] == 'ReturnStmt':
+                return None
+            return st
+
+        Explorer(f, step).run('none')
+        S.ob(rule, f.qname, 'catalogue entry used inside the session only', not sites,
+             'every use of the looked-up tree precedes leave()' if not sites else
+             'the tree_instance looked up in the catalogue is dereferenced at %s after leave(): the entry was retired by '
+             'remove() and may already be freed / reused' % sorted(sites)[0],
+             loc=sorted(sites)[0] if sites else f.loc, path=sites[sorted(sites)[0]] if sites else None)
+    S.require(rule, 'DDL functions with a session of their own', n, 2)
+
+
 def rule_atom(S, rule='R-ATOM'):
     """delete_storage looks the entry up and removes the name in two steps; they must see the same entry (finding F11)."""
     facts = S.facts()
@@ -494,21 +586,34 @@ def rule_atom(S, rule='R-ATOM'):
         return out
 
     def lc(loc):
+        # 'file:line[~splice]:col' -> (file, line, col, splice)
         p_ = (loc or '').split(':')
         try:
-            return (p_[0], int(p_[1]), int(p_[2]) if len(p_) > 2 else 0)
+            ln, _, tag = p_[1].partition('~')
+            return (p_[0], int(ln), int(p_[2]) if len(p_) > 2 else 0, tag)
         except (ValueError, IndexError):
             return None
 
     def covered(g, call):
-        a, b, c = lc(g['loc']), lc(g['end']), lc(call.get('call_loc') or call.get('loc'))   # spliced code runs at its call site
-        return a is not None and b is not None and c is not None and a[0] == b[0] == c[0] and a[1:] <= c[1:] <= b[1:]
+        a, b = lc(g['loc']), lc(g['end'])
+        if a is None or b is None:
+            return False
+        if a[3]:
+            # the guard lives in a spliced helper: it covers the code of the same splice (its own scope) ...
+            c = lc(call.get('loc'))
+            if c is not None and c[3] == a[3]:
+                return a[0] == b[0] == c[0] and a[1:3] <= c[1:3] <= b[1:3]
+            return False
+        # ... a guard of the function itself covers what runs inside its scope, spliced code at its call site
+        c = lc(call.get('call_loc') or call.get('loc'))
+        return c is not None and a[0] == b[0] == c[0] and a[1:3] <= c[1:3] <= b[1:3]
 
     ds = facts.one('yakushima::storage::delete_storage')
     cs = facts.one('yakushima::storage::create_storage')
     facts.__dict__['_c13_guards'] = (guards_of, covered)
-    lookups = [n for n in ds.all_nodes() if is_call(n, cq='yakushima::get') and
-               any(is_catalogue(ds, a) for a in call_args(ds, n)[:1])]
+    lookups = [n for n in ds.all_nodes() if (is_call(n, cq='yakushima::get') and
+                                             any(is_catalogue(ds, a) for a in call_args(ds, n)[:1])) or
+               is_call(n, cq='yakushima::storage::find_storage')]    # find_storage is the catalogue lookup by name
     removes = [n for n in ds.all_nodes() if is_call(n, cq='yakushima::remove') and
                any(is_catalogue(ds, a) for a in call_args(ds, n)[1:2])]
     inserts = [n for n in cs.all_nodes() if is_call(n, cq='yakushima::put') and
@@ -538,6 +643,7 @@ def run(S):
     rule_stg(S)
     rule_iso(S)
     rule_atom(S)
+    rule_sess(S)
     rule_unq(S)
     # 'exactly one of several concurrent creates succeeds' rests on the unique insert of put (shared with C01)
     from checks import shared
